@@ -171,11 +171,19 @@ func cmdC18(args []string) {
 		{"star-headers-credentialed", Sem{Pats: []cPattern{ex}, Cred: true, Status: 204, Pna: "none", MAny: true, HStar: true, Expose: []string{"x-e"}}},
 		{"discrete-credentialed-pna", Sem{Pats: []cPattern{ex}, Cred: true, Status: 200, Pna: "cors", Meths: []string{"PUT"}, HNames: []string{"authorization", "x-a"}, HAuth: true}},
 	}
+	// a configuration with MANY allowed names: the success path of the discrete check with a growing number of allowed
+	// elements, padded in every tolerated way
+	var many []string
+	for i := 0; i < 128; i++ {
+		many = append(many, fmt.Sprintf("x-h%03d", i))
+	}
+	kinds = append(kinds, kindCfg{"discrete-128-names", Sem{Pats: []cPattern{ex}, Status: 204, Pna: "none", HNames: many}})
 	ladder := []int{1, 10, 100, 1000, 10000}
 	if *big {
 		ladder = append(ladder, 100000, 1<<20)
 	}
-	shapes := []string{"bytes", "elements", "empties", "lines", "emptylines", "ows", "allowed-then-junk"}
+	shapes := []string{"bytes", "elements", "empties", "lines", "emptylines", "ows", "allowed-then-junk",
+		"allowed", "allowed-sp", "allowed-tab", "allowed-both", "allowed-lines", "allowed-empties"}
 	measures := 0
 	for _, kc := range kinds {
 		m, err := cors.NewMiddleware(*kc.s.spell(rng))
@@ -196,8 +204,38 @@ func cmdC18(args []string) {
 								continue
 							}
 							hd := http.Header{hOrigin: {"https://example.com"}, hACRM: {"PUT"}}
+							if kc.name == "discrete-128-names" {
+								hd[hACRM] = []string{"GET"} // safelisted: the header step is reached
+							}
 							var v []string
-							if shape == "allowed-then-junk" {
+							if strings.HasPrefix(shape, "allowed") && shape != "allowed-then-junk" {
+								if kc.name != "discrete-128-names" || n > 128 {
+									continue
+								}
+								pre, post, sep := "", "", ","
+								switch shape {
+								case "allowed-sp":
+									pre = " "
+								case "allowed-tab":
+									pre = "\t"
+								case "allowed-both":
+									pre, post = "\t", " "
+								case "allowed-empties":
+									sep = ",,"
+									if n > 16 {
+										continue
+									}
+								}
+								var parts []string
+								for _, nm := range many[:n] {
+									parts = append(parts, pre+nm+post)
+								}
+								if shape == "allowed-lines" {
+									v = parts
+								} else {
+									v = []string{strings.Join(parts, sep)}
+								}
+							} else if shape == "allowed-then-junk" {
 								v = []string{"x-a,x-b," + strings.Repeat("x-c,", n)}
 							} else {
 								v = bigValue(rng, shape, n)
